@@ -31,9 +31,6 @@ class Operator(MatrixData, BasisManaged, Saveable):
             # Set the currently used basis
             cb = self.manager.get_current_basis()
             self.set_current_basis(cb)
-            # unless it is the basis outside any context
-            if cb != 0:
-                self.manager.register_with_basis(cb, self)
                 
             self.name=name
                  
@@ -60,6 +57,12 @@ class Operator(MatrixData, BasisManaged, Saveable):
                 else:
                     self.data = numpy.zeros((dim,dim),dtype=COMPLEX)
                 self.dim = dim
+
+            # unless it is the basis outside any context, the operator is
+            # registered with the current basis; only now, so that a refused
+            # construction leaves nothing behind for the context to transform
+            if cb != 0:
+                self.manager.register_with_basis(cb, self)
 
 
     def __add__(self, other):
